@@ -109,6 +109,30 @@ func (o *pOutput) Writes() [][2]int64 {
 	return c
 }
 
+// SyncThrough makes sure everything written to a pseudo-terminal so far has reached this buffer: a marker is written
+// to the slave side and the call waits (up to `limit`) until the goroutine draining the master has delivered it; the
+// marker is then taken out again.  (Waiting for "no new bytes for 20 ms" was not enough on a loaded machine.)
+func (o *pOutput) SyncThrough(w io.Writer, limit time.Duration) bool {
+	marker := []byte("\x00\x01verif-sync\x01\x00")
+	if _, err := w.Write(marker); err != nil {
+		return false
+	}
+	deadline := time.Now().Add(limit)
+	for {
+		o.mu.Lock()
+		if i := bytes.Index(o.b, marker); i >= 0 {
+			o.b = append(o.b[:i:i], o.b[i+len(marker):]...)
+			o.mu.Unlock()
+			return true
+		}
+		o.mu.Unlock()
+		if time.Now().After(deadline) {
+			return false
+		}
+		time.Sleep(time.Millisecond)
+	}
+}
+
 func (o *pOutput) Len() int {
 	o.mu.Lock()
 	n := len(o.b)
